@@ -170,6 +170,7 @@ func (u *Unit) specExpr(st *State, e *SExpr, env *SpecEnv, q *bool) *Val {
 		f, _ := strconv.ParseFloat(e.Name, 64)
 		return &Val{T: types.Typ[types.Float64], S: fpLit(f, SF64)}
 	case "str":
+		u.d.strLits[e.Name] = true
 		return &Val{T: types.Typ[types.String], S: strLit(e.Name)}
 	case "nil":
 		return &Val{T: types.Typ[types.UntypedNil], S: "0"}
@@ -423,6 +424,14 @@ func (u *Unit) specBin(st *State, e *SExpr, env *SpecEnv, q *bool) *Val {
 				b = u.refloat(b, a.T)
 			}
 		}
+		// slice against slice (spec only): same contents, length and nil-ness
+		if (kindOf(a.T) == kSlice || kindOf(a.T) == kArray) && (kindOf(b.T) == kSlice || kindOf(b.T) == kArray) && a.Arr != "" && b.Arr != "" && (e.Name == "==" || e.Name == "!=") {
+			r := tAnd(tEq(a.Arr, b.Arr), tEq(a.Len, b.Len), tEq(a.Nil, b.Nil))
+			if e.Name == "!=" {
+				r = tNot(r)
+			}
+			return boolVal(r)
+		}
 		// nil against slice
 		return u.compare(st, t, a, b, nil)
 	}
@@ -522,6 +531,12 @@ func (u *Unit) specCall(st *State, e *SExpr, env *SpecEnv, q *bool) *Val {
 		return v
 	case "unwrap": // unwrap(e): the error wrapped by a fmt.Errorf("%w") value (nil if none)
 		return &Val{T: types.Universe.Lookup("error").Type(), S: app(u.wrapsFn(), ev(0).S)}
+	case "joinOf": // joinOf(xs, sep): strings.Join(xs, sep)
+		return &Val{T: types.Typ[types.String], S: u.joinTerm(ev(0), ev(1).S)}
+	case "canonHeader":
+		return &Val{T: types.Typ[types.String], S: u.canonHeader(ev(0).S)}
+	case "fold":
+		return &Val{T: types.Typ[types.String], S: u.foldStr(ev(0).S)}
 	case "errText": // errText(e): e.Error()
 		return &Val{T: types.Typ[types.String], S: app(u.errTextFn(), ev(0).S)}
 	case "lower": // lower(s): strings.ToLower(s) (uninterpreted, with distribution facts from the fmt.Errorf model)
